@@ -983,6 +983,7 @@ func TestVerifC17(t *testing.T) {
 	c17Tables(c)
 	c17Large(c)
 	c17Histories(c, mc.Pick(c, 5, 6))
+	mc.FirstCalls(c, c17Calls, "TestVerifC17Fresh", "VERIF_C17_CALLS")
 	if code := c.Finish(); code != 0 {
 		os.Exit(code)
 	}
